@@ -98,16 +98,16 @@ PROPS = {
     "C10": _p(["R4", "R5", "R6", "R9", "K4"],
               "greedy / left-biased priority as a property of the fork instruction (a1 tried recursively, state restored from a copy, then a2) and of each of the four places that emit one (a1 -> the sub-pattern that follows, a2 -> after it / deferred / loop-back), alternation emits the left branch first (R4); the scan starts at the subject start, advances one decoded character and returns the first success (R5); each bracket class name denotes exactly the C-locale predicate's ASCII set (R6); every built-in pattern set needs at most NGRPS/2 groups by the repository's own group-count rule, so no alternative's marks are dropped and the reported index can be the matching one (K4).",
               "genuineness of matches, capture spans, completeness within the depth limit (behavioural over runtime strings; the proposed depth-limit counter hook is a runtime device and is not used)."),
-    "C17": _p(["K1", "B3", "T4"],
+    "C17": _p(["K1", "K5", "B3", "T4"],
               "the three width/bell range tables are sorted, disjoint and lo <= hi (bisection precondition), the shortcut thresholds in uc_isdw/uc_iszw do not exclude listed characters, find() agrees with the tables at every range boundary by abstract evaluation, widths are 0/1/2 (K1); pos[]/off[] allocations cover their writes (B3).",
               "tiling and round-trip laws of the column mapping (behavioural)."),
-    "C18": _p(["O1", "K2", "K3", "B7", "T4"],
+    "C18": _p(["O1", "O2", "K2", "K3", "B7", "T4"],
               "the order array is written only by the identity initialisation over [0,n), the guarded terminator fixed point and an element swap whose loop runs while beg < end, and is inverted as off[pos[i]] = i (O1: necessary for `always a permutation`); every shaping form is, per the Unicode database, the isolated/initial/medial/final presentation form of the same letter, the table is strictly increasing for its bisection, and uc_cshape picks medial/final/initial/base by (join_prev, join_next) for every row x 25 neighbour contexts and never alters non-Arabic characters, by abstract evaluation (K2); direction-mark rows reference existing groups that fit subs[], dir/ctx in range (K3); the loops filling the pattern arrays are bounded by table lengths <= array sizes (B7).",
               "that swap ranges stay inside the line (matcher offsets) and the reversal semantics of runs (behavioural)."),
     "C12": _p(["L1", "L2", "L3", "L4", "T4"],
               "every byte the regex parser treats as an operator (case labels, strchr sets and comparisons of the parser functions) stops the literal classifier's scan, so a pattern with an operator is never a literal (L1); a literal match stores all 2n group slots, groups >= 1 as unset, and the set matcher fills all slots whenever it returns >= 0 (L2); the two word predicates agree on all 255 byte values by abstract evaluation (L3); the word-boundary tests never read before the subject (linear proof at each look-behind read) (L4).",
               "equality of the two matchers' offsets on all lines (behavioural)."),
-    "C13": _p(["M2", "M1", "T4"],
+    "C13": _p(["M2", "M1", "M3", "T4"],
               "only the premise `matches are judged against the whole line`: the matcher call in lbuf_search is on an interior pointer and neither matcher receives the line start (M2: reported as the known finding D12), and its flags can carry RE_NOTBOL for the resumed scan (M1).",
               "which occurrence is chosen, wrap-around, counts, n/N (behavioural)."),
     "C14": _p(["M1", "T1", "L2", "B6", "T4", "R5", "R9"],
